@@ -438,8 +438,60 @@ func init() {
 		}
 		base := c05BaseList[[]int{1, 2, 3, 5, 6, 7, 8, 0, 4}[c.Free(nb, "base")]]
 		file := base.file
-		kind := c.Dev(12, "mutation-kind")
+		kind := c.Dev(13, "mutation-kind")
 		switch kind {
+		case 12: // a b1 index entry whose variants-value names so many axes that the number of possible variant keys (the
+			// product of the axis sizes) does not fit in 64 bits, with the value-array count a wrapped product would
+			// predict: 2^64 = 0 keys -> 1 item, 2^63 keys -> 2*2^63+1 = 1 item, 3*2^62 keys -> 2^63+1 items, 0 keys + one
+			// real location.  Every one of them is an index entry whose count field disagrees with the file.
+			type shape struct {
+				note    string
+				axes    []int // values per axis
+				count   uint64
+				realLoc bool
+			}
+			rep := func(n, v int) []int {
+				out := make([]int, n)
+				for i := range out {
+					out[i] = v
+				}
+				return out
+			}
+			shapes := []shape{
+				{"64 two-valued axes (2^64 keys), array of 1", rep(64, 2), 1, false},
+				{"63 two-valued axes (2^63 keys), array of 1", rep(63, 2), 1, false},
+				{"62 two-valued axes and a three-valued one (3*2^62 keys), array of 2^63+1", append(rep(62, 2), 3), 1<<63 + 1, false},
+				{"64 two-valued axes, array of 3 with one real location", rep(64, 2), 3, true},
+				{"32 four-valued axes (2^64 keys), array of 1", rep(32, 4), 1, false},
+				{"16 sixteen-valued axes (2^64 keys), array of 1", rep(16, 16), 1, false},
+				{"65 two-valued axes (2^65 keys), array of 1", rep(65, 2), 1, false},
+				{"32 two-valued axes (2^32 keys), array of 1", rep(32, 2), 1, false},
+				{"31 two-valued axes (2^31 keys), array of 2^32+1", rep(31, 2), 1<<32 + 1, false},
+			}
+			sh := shapes[c.Free(len(shapes), "shape")]
+			var axes []string
+			for i, nv := range sh.axes {
+				a := fmt.Sprintf("a%d", i)
+				for v := 0; v < nv; v++ {
+					a += fmt.Sprintf(";v%d", v)
+				}
+				axes = append(axes, a)
+			}
+			vv := []byte(strings.Join(axes, ", "))
+			r1 := c05Response(c05Ex{status: 200, headers: [][2]string{{"content-type", "text/plain"}, {"variants", string(vv)}, {"variant-key", "v0"}}, body: []byte("variant")})
+			r2 := c05Response(c05Ex{status: 200, headers: [][2]string{{"content-type", "text/plain"}}, body: []byte("plain")})
+			resp := append(append(refcbor.AppendHead(nil, refcbor.Array, 2), r1...), r2...)
+			val := append(refcbor.AppendHead(nil, refcbor.Array, sh.count), refcbor.EncBytes(vv)...)
+			if sh.realLoc {
+				val = append(append(val, refcbor.EncUint(1)...), refcbor.EncUint(uint64(len(r1)))...)
+			}
+			index := refcbor.MustMap(
+				refcbor.KV{K: refcbor.EncText("https://ex.test/v"), V: val},
+				refcbor.KV{K: refcbor.EncText("https://ex.test/w"), V: refcbor.EncArray(refcbor.EncBytes(nil), refcbor.EncUint(uint64(1+len(r1))), refcbor.EncUint(uint64(len(r2))))})
+			prefix := append(refcbor.EncBytes([]byte{0xf0, 0x9f, 0x8c, 0x90, 0xf0, 0x9f, 0x93, 0xa6}), refcbor.EncBytes([]byte("b1\x00\x00"))...)
+			prefix = append(prefix, refcbor.EncText("https://ex.test/w")...)
+			out := refbx.Rebuild("b1", prefix, []string{"index", "responses"}, [][]byte{index, resp})
+			return &c05Case{input: out, base: base, op: "b1 index entry with variants-value of " + sh.note}
 		case 11: // the ':status' value of one response replaced by another string, the whole bundle re-encoded consistently
 			// (lengths, offsets and the section table all fit): only a three-digit value is a status
 			sts := []string{"200 ", " 200", "200x", "2000", "404;", "301\n", "20", "2", "", "+20", "-20", "2 0", "0x1", "\u0662\u0660\u0660", "1e2", "200\x00", "999", "099", "000"}
@@ -714,7 +766,7 @@ func init() {
 	register(&mc.Property{
 		ID:          "C05",
 		Level:       "model_checking",
-		Rule:        "choice-tree enumeration of inputs to bundle.Read in watchdog-supervised workers: 7 (quick) / 9 (thorough) base bundles built by the reference encoder (b1/b2, 1-3 exchanges, primary/manifest/signatures sections, a b1 variants entry, two with the sections in an order the repository's writer never produces: manifest ahead of index in a b2 bundle, signatures/manifest ahead of index in b1; one whose responses section is a single response item at offset 0) x one structure-aware mutation: every length/offset/count head replaced by a well-delimited item of another type (null, false, negative integers, empty strings / array / map, a tag, a reserved head, a float), or re-encoded with the same value in a wider head / with the value moved into the high half of an 8-byte argument; every length/offset/count head of the reference's field map replaced by each of 9 boundary values (0, exact+-1, file size, 2^32, 2^63-1, 2^63, 2^64-1, exact+2^63; thorough: pairs of fields), truncation at every offset, every byte set to 8 values (quick: 00, ff, two bit flips, +1, '+', '-', space) / all 256 (thorough), offset/length pairs whose sum wraps around 2^64, an unknown section inserted consistently at every position (must be stepped over), the section table permuted / an entry duplicated / dropped, an unknown section listed without content, the ':status' value of a response replaced by 19 other strings ('200 ', '2000', '+20', the empty string, non-ASCII digits ...) with the bundle re-encoded consistently. Oracle: refbx.Extract (location-strict, encoding-lenient). Non-trivial = the reference produced a verdict the reader had to match (content equality, must-refuse location, must-accept unknown section); distinct by input hash.",
+		Rule:        "choice-tree enumeration of inputs to bundle.Read in watchdog-supervised workers: 7 (quick) / 9 (thorough) base bundles built by the reference encoder (b1/b2, 1-3 exchanges, primary/manifest/signatures sections, a b1 variants entry, two with the sections in an order the repository's writer never produces: manifest ahead of index in a b2 bundle, signatures/manifest ahead of index in b1; one whose responses section is a single response item at offset 0) x one structure-aware mutation: every length/offset/count head replaced by a well-delimited item of another type (null, false, negative integers, empty strings / array / map, a tag, a reserved head, a float), or re-encoded with the same value in a wider head / with the value moved into the high half of an 8-byte argument; every length/offset/count head of the reference's field map replaced by each of 9 boundary values (0, exact+-1, file size, 2^32, 2^63-1, 2^63, 2^64-1, exact+2^63; thorough: pairs of fields), truncation at every offset, every byte set to 8 values (quick: 00, ff, two bit flips, +1, '+', '-', space) / all 256 (thorough), offset/length pairs whose sum wraps around 2^64, an unknown section inserted consistently at every position (must be stepped over), the section table permuted / an entry duplicated / dropped, an unknown section listed without content, the ':status' value of a response replaced by 19 other strings ('200 ', '2000', '+20', the empty string, non-ASCII digits ...) with the bundle re-encoded consistently, and a b1 index entry whose variants-value announces 2^31 .. 2^65 possible keys (31..65 axes, or 32 four-valued / 16 sixteen-valued axes) with the value-array count a product wrapped to 32 or 64 bits would predict. Oracle: refbx.Extract (location-strict, encoding-lenient). Non-trivial = the reference produced a verdict the reader had to match (content equality, must-refuse location, must-accept unknown section); distinct by input hash.",
 		Assumptions: []string{"refbx extracts at least what bundle.Read accepts (any well-formed CBOR head, any key order) and is exact about locations", "inputs the reference can extract but the reader refuses for its own stricter rules (URL syntax, header-name case, ASCII) are not judged", "header maps with duplicate names are not judged (the property does not say which value a reader returns)"},
 		Harnesses:   []*mc.Harness{h},
 		Guard: func(s map[string]*mc.Stats) error {
